@@ -476,6 +476,57 @@ def extract_schema():
 
 
 # --------------------------------------------------------------------------------------
+# expression operators (probing the live objects)
+# --------------------------------------------------------------------------------------
+def extract_expr_ops():
+    """method of OpSupport -> name of the abstract expression its result serialises to
+    ('!<Error>' when it cannot be serialised); names the decoder accepts; schema enums."""
+    import warnings
+
+    import pulser.json.abstract_repr as ar
+    from pulser.json.abstract_repr.deserializer import _deserialize_parameter
+    from pulser.json.abstract_repr.serializer import AbstractReprEncoder
+    from pulser.parametrized import Variable
+    from pulser.parametrized.paramobj import OpSupport
+
+    var = Variable("x", float, size=2)
+    item = var[0]
+    rows = []
+    for name, f in sorted(vars(OpSupport).items()):
+        if not callable(f) or name in ("__module__", "__doc__"):
+            continue
+        n_params = len(inspect.signature(f).parameters)
+        try:
+            with warnings.catch_warnings():
+                warnings.simplefilter("ignore")
+                obj = f(item) if n_params == 1 or name == "__round__" else f(item, 2)
+                js = json.loads(json.dumps(obj, cls=AbstractReprEncoder))
+            emitted = js.get("expression", "?")
+        except Exception as e:  # noqa: BLE001
+            emitted = f"!{type(e).__name__}"
+        rows.append((name, emitted))
+    path = Path(ar.__file__).parent / "schemas" / "sequence-schema.json"
+    defs = json.loads(path.read_text())["definitions"]
+    unary = list(defs["ExprUnary"]["properties"]["expression"]["enum"])
+    binary = list(defs["ExprBinary"]["properties"]["expression"]["enum"])
+    accepted = []
+    for e in unary + binary + sorted({r[1] for r in rows if not r[1].startswith("!")}):
+        if e in accepted:
+            continue
+        doc = {"expression": e, "lhs": {"variable": "x"}}
+        if e not in unary:
+            doc["rhs"] = 1
+        try:
+            with warnings.catch_warnings():
+                warnings.simplefilter("ignore")
+                _deserialize_parameter(doc, {"x": var})
+            accepted.append(e)
+        except Exception:  # noqa: BLE001
+            pass
+    return rows, accepted, unary, binary
+
+
+# --------------------------------------------------------------------------------------
 # tables
 # --------------------------------------------------------------------------------------
 def build_tables() -> dict:
@@ -556,7 +607,9 @@ def build_tables() -> dict:
         dec_required=top_req, dec_conditional=top_opt,
         schema_required=sch_common, schema_required_any=sch_any, schema_props=sch_props,
     )
+    expr_rows, expr_accepted, expr_unary, expr_binary = extract_expr_ops()
     return dict(rows=rows, top=top, orphan_dec=orphan_dec, orphan_schema=orphan_schema,
+                expr_rows=expr_rows, expr_accepted=expr_accepted, expr_unary=expr_unary, expr_binary=expr_binary,
                 uncovered_calls=uncovered, stored_calls=sorted(set(stored + manual)),
                 sources=dict(encoder=enc_path, decoder=dec_path, schema=sch_path))
 
@@ -633,6 +686,14 @@ def render(t: dict) -> str:
     out.append("/-- Stored Sequence calls (`@store` or stored by hand) / those no encoder branch handles. -/")
     out.append(f"def storedCalls : List String := {_ls(t['stored_calls'])}")
     out.append(f"def uncoveredCalls : List String := {_ls(t['uncovered_calls'])}")
+    out.append("/-- Operators of parametrized objects (`OpSupport` methods): the abstract expression their result "
+               "serialises to (`!Error` when serialisation raises). -/")
+    out.append(f"def exprOps : List (String × String) := {_lp(t['expr_rows'])}")
+    out.append("/-- Expression names `_deserialize_parameter` accepts (probed live). -/")
+    out.append(f"def decoderExprs : List String := {_ls(t['expr_accepted'])}")
+    out.append("/-- Expression names the schema allows (ExprUnary / ExprBinary). -/")
+    out.append(f"def schemaUnary : List String := {_ls(t['expr_unary'])}")
+    out.append(f"def schemaBinary : List String := {_ls(t['expr_binary'])}")
     out.append("\nend AbstractOps\nend Generated\nend Pulser\n")
     return "\n".join(out)
 
@@ -663,4 +724,5 @@ if __name__ == "__main__":
         print(r["op"], r["calls"], "emitted", r["emitted"], "elided", r["elided"], "| dec", r["dec_required"],
               r["dec_optional"], r["method"])
     print(tabs["top"])
+    print(tabs["expr_rows"]); print(tabs["expr_accepted"])
     print("orphans", tabs["orphan_dec"], tabs["orphan_schema"], "uncovered", tabs["uncovered_calls"])
